@@ -213,7 +213,8 @@ def oracle_loaded_vs_files(pcfg, spec, flags):
             n = int(name[1:])
             got = [(g['prob'], list(g['values'])) for g in groups]
             if got != [(1.0, ['L' * n])]:
-                v.append({'property': 'C01', 'kind': 'all-lower-mask-list-not-single-lower-mask', 'variable': name, 'loaded': str(got)[:200]})
+                v.append({'property': 'C01', 'kind': 'all-lower-mask-list-not-single-lower-mask', 'variable': name, 'loaded': str(got)[:200],
+                          'values_differ': sorted(x for _, vals in got for x in vals) != ['L' * n]})
                 break
             continue
         else:
